@@ -1,2 +1,8 @@
-"""C03 -- proof part from the contracts tagged C03; bounded API-level comparison on left-recursive schemas."""
-from bounded.bC03 import run as bounded  # noqa: F401
+"""C03 -- proof part from the contracts tagged C03; bounded API-level comparison on left-recursive schemas; histories on one
+reused generated parser (the seed table of one parse must not reach the next)."""
+
+
+def bounded(tier, seed, info):
+    from bounded.bC03 import run
+    from bounded.bHist import run_parser_histories
+    return run(tier, seed, info) + run_parser_histories('C03', tier, seed, only=('lrec',))
